@@ -21,7 +21,7 @@ RULE = ("all strings of length <= 4 (quick) / <= 5 (thorough) over the 15-charac
         "under neutral mnemonics and under API/UWI/api/Uwi, and in ~Curves; strings containing ':' use the NAME : VALUE "
         "form; plus random longer strings (identifiers like 15_9 and 12-34-12-34W5M, dates, times, inf, nan, hex, 1e400, "
         "19/20-digit integers, thousands separators). distinct = distinct (string, section kind, mnemonic kind); "
-        "non-trivial = string containing at least one digit Added later: non-numeric values under the steering mnemonics, values equal / close to the file's own NULL for six NULLs, declared versions 1.2 / 2.1 / 3.0, twelve description texts (format words, braces, numbers), values with blank runs." % ALPHABET)
+        "non-trivial = string containing at least one digit Added later: non-numeric values under the steering mnemonics, values equal / close to the file's own NULL for six NULLs, declared versions 1.2 / 2.1 / 3.0, twelve description texts (format words, braces, numbers), values with blank runs. Round 8: value lines that are the file's own STRT / STOP / STEP / NULL line, in files with data rows." % ALPHABET)
 ASSUMPTIONS = [
     "recogniser: definite literal = [+-]?digits([.,]digits)?([eE][+-]?digits)? ; grey zone (5. .5 5, ,5) only requires 'if converted then numerically equal' ; everything else must stay the verbatim string",
     "non-ASCII digits are outside the quantifier (ASCII strings) and only probed",
@@ -169,6 +169,12 @@ def grid(tier):
         for sec in SECTION_KINDS:
             for mn in ("neutral", "API"):
                 yield {"strings": spellings, "section": sec, "mn": mn, "null": null}
+    # the ~Well items the reader and writer themselves consult (STRT, STOP, STEP, NULL), each holding one text - the empty one too -
+    # in a file that has data rows
+    for mn in ("STRT", "STOP", "STEP", "NULL"):
+        for val in ("", "abc", "1670.0", "1,5", "12-34", "1_0", "nan", "0x10", "1e3"):
+            for vers in ("2.0", "1.2"):
+                yield {"strings": [val], "section": "Well", "mn": mn, "vers": vers, "replaces_table_item": True}
 
 
 DESCRS = ["d%d", "d%d", "Well number %d {S}", "Latitude %d {F}", "%d {E}", "x%d {F10.4} | assoc", "{S} %d", "string %d", "float %d", "(int) %d", "%d 12,5", "%d 1e5"]
@@ -239,7 +245,7 @@ def run_case(case, ctx):
         strings = [s for s in strings if ".." not in s and ":" not in s]
     lines, used = [], []
     vers = case.get("vers", "2.0")
-    swapped = vers == "1.2" and sec == "Well"          # LAS 1.2 ~Well lines are 'MNEM.UNIT DESCRIPTION : VALUE'
+    swapped = vers == "1.2" and sec == "Well" and not case.get("replaces_table_item")    # LAS 1.2 ~Well lines are 'MNEM.UNIT DESCRIPTION : VALUE' (STRT, STOP, STEP and NULL excepted)
     for i, s in enumerate(strings):
         mn = ("K%d" % i) if mnk == "neutral" else mnk
         if ":" in s:
@@ -255,6 +261,10 @@ def run_case(case, ctx):
     head = ["~Version", "VERS. %s : v" % vers, "WRAP. NO : w"]
     ctx.count("files_declaring_version_" + vers)
     well = ["~Well", "STRT.M 1 : s", "STOP.M 2 : s", "STEP.M 1 : s", "NULL. %s : n" % case.get("null", "-999.25")]
+    if case.get("replaces_table_item"):
+        # the value line IS the file's STRT / STOP / STEP / NULL line (the base's own line of that name is left out), and the file has data rows
+        well = [ln for ln in well if ln.split(".")[0].strip().upper() != mnk.upper()]
+        ctx.count("files_whose_value_line_is_a_table_item_with_data_rows")
     if case.get("null"):
         ctx.count("files_with_values_equal_to_their_null")
     text = []
@@ -268,6 +278,8 @@ def run_case(case, ctx):
         text = head + well + ["~Tools used"] + lines
     else:
         text = head + well + ["~Curves"] + lines
+    if case.get("replaces_table_item"):
+        text = text + ["~Curves", "DEPT.M : d", "A. : a", "~ASCII", "1670.0 1.5", "1670.5 2.5", "1671.0 3.5"]
     text = "\n".join(text) + "\n"
     try:
         las = lasio.read(text, mnemonic_case="preserve")
@@ -290,7 +302,7 @@ def run_case(case, ctx):
             ctx.count("curve_values_checked")
             if it.value != s:
                 ctx.violation("curve-value-converted", "%s: ~Curves value %r became %r (%s)" % (where, s, it.value, type(it.value).__name__), detail)
-        elif mnk != "neutral" and sec != "Parameter":
+        elif mnk != "neutral" and sec != "Parameter" and not case.get("replaces_table_item"):
             ctx.count("api_uwi_values_checked")
             if it.value != s:
                 ctx.violation("api-uwi-not-verbatim", "%s: %s value %r became %r (%s)" % (where, mn, s, it.value, type(it.value).__name__), detail)
